@@ -59,6 +59,13 @@ def hier_designs(tier, seed):
             m.add(child(p=net, q=m.q), name=names.get("inst2", "u2"))
             if w == 1:
                 m.add(h.R(r=3)(p=net, n=m.k), name="rr")
+            if "dangling" in names and d == depth:
+                # a top-level port / signal that nothing connects to, named like the flattened internal net of a child
+                m.add(h.Port() if names.get("dangling-port") else h.Signal(), name=names["dangling"])
+            if "unnamed" in names and d == depth:
+                # instances called "" and "_" side by side (the empty name used to be written "_" in flattened paths)
+                m.add(child(p=m.p, q=m.k), name="")
+                m.add(child(p=net, q=m.q), name="_")
             if "leaf" in names and d == depth:
                 # a top-level leaf device named like the ':'-joined path of a device further down
                 m.add(h.R(r=4)(p=m.q, n=m.k) if w == 1 else ext(w)()(a=m.p, z=m.q), name=names["leaf"])
@@ -78,6 +85,10 @@ def hier_designs(tier, seed):
     specs.append((2, False, False, {"leaf": "u1:rr"}))
     specs.append((1, False, False, {"leaf": "u1:r1"}))
     specs.append((2, True, False, {"leaf": "u2:e1"}))
+    specs.append((1, False, False, {"dangling": "u1:k", "dangling-port": True}))
+    specs.append((2, False, False, {"dangling": "u1:u1:n", "dangling-port": True}))
+    specs.append((1, False, False, {"dangling": "u2:n"}))
+    specs.append((1, False, False, {"unnamed": True}))
     # histories: flatness asked of a module (and of its parts) while it is still being built, and flattening twice
     def probed(depth):
         from hdl21.flatten import is_flat, flatten as _fl
